@@ -163,11 +163,13 @@ def r17_4_wiring(ctx):
     numbering = [n for n in walk_local(f.node) if isinstance(n, ast.Assign) and u(n.targets[0]).startswith("slotAssignments[")]
     ctx.check(bool(numbering) and all(vcall.lineno < n.lineno for n in numbering), "R17.4", "assign:check-before-numbering", "the definite-assignment check must run before slot indices are assigned", f.where, fact={})
     rs = [r_ for r_ in q.raises_of(f.node) if r_.cause is not None]
-    ctx.check(len(rs) == 1 and u(rs[0].cause) == "errors[0]" and q.raise_type(rs[0]) == "TealInternalError" and ("len(errors) > 0", True) in q.nguards(rs[0]), "R17.4", "assign:error-chained", "when errors exist a TealInternalError must be raised `from errors[0]` (the error that names the load)", f.where, fact={})
+    errs = q.name_assigned_from(f.node, q.is_call_to("validateSlots"), "the error list returned by validateSlots")
+    ctx.check(len(rs) == 1 and u(rs[0].cause) == f"{errs}[0]" and q.raise_type(rs[0]) == "TealInternalError" and (f"len({errs}) > 0", True) in q.nguards(rs[0]), "R17.4", "assign:error-chained", "when errors exist a TealInternalError must be raised `from errors[0]` (the error that names the load)", f.where, fact={})
     ci = ctx.model.find_func("Compilation._compile_impl", "pyteal.compiler.compiler")
     a = q.one(q.calls_named(ci.node, "assignScratchSlotsToSubroutines", into_nested=False), "_compile_impl: assignScratchSlotsToSubroutines")
     o = q.one(q.calls_named(ci.node, "apply_global_optimizations", into_nested=False), "_compile_impl: optimiser")
-    ctx.check(o.lineno < a.lineno and not q.nguards(a, ("branch",)) and u(a.args[0]) == "subroutine_start_blocks", "R17.4", "_compile_impl:check-after-optimiser", "slot assignment (and with it the check) must run unconditionally on all routines after the optimiser", ci.where, fact={})
+    cs_ = q.one(q.calls_named(ci.node, "compileSubroutine", into_nested=False), "_compile_impl: compileSubroutine call")
+    ctx.check(o.lineno < a.lineno and not q.nguards(a, ("branch",)) and u(a.args[0]) == u(cs_.args[3]), "R17.4", "_compile_impl:check-after-optimiser", "slot assignment (and with it the check) must run unconditionally on all routines after the optimiser", ci.where, fact={})
     ctx.require_min("R17.4", 6)
 
 
